@@ -177,6 +177,15 @@ class SDictV(SV):
         return self._skey
 
     def pvc_getattr(self, I, name):
+        if name == "get":
+
+            def m_get(I2, a, kw):
+                if len(a) == 2 and a[1] is not None:
+                    raise Unsupported("dict.get with a non-None default")
+                kz = self.keyz(I2, a[0])
+                return MaybeV(self.has(kz), self.val_wrap(self.get(kz)))
+
+            return Builtin("dict.get", m_get)
         if name == "keys":
             return Builtin("dict.keys", lambda I, a, k: KeysView(self))
         if name == "items":
@@ -184,6 +193,30 @@ class SDictV(SV):
         if name == "values":
             return Builtin("dict.values", lambda I, a, k: SSeq(SInt(self.n), lambda i: self.val_wrap(self.get(self.kkey(i))), f"values({self.tag})"))
         return NotImplemented
+
+
+class MaybeV(SV):
+    """d.get(k): the value under k when present, else the default None (a conditional value)."""
+
+    def __init__(self, has, val):
+        self.has, self.val = has, val
+
+    def pvc_subst(self, pairs):
+        from .sym import subst
+
+        return MaybeV(z3.substitute(self.has, *pairs), subst(self.val, pairs))
+
+    def pvc_is_none(self, I):
+        return wrap(z3.Not(self.has))
+
+    def pvc_truth(self, I):
+        t = I.truth(self.val)
+        return z3.And(self.has, t if z3.is_expr(t) else z3.BoolVal(bool(t)))
+
+    def present_value(self, I):
+        """use as a plain value: None where a number is required raises TypeError"""
+        I.raise_if(z3.Not(self.has), "TypeError")
+        return self.val
 
 
 class DictSeq(SSeq):
@@ -351,7 +384,8 @@ class SeqDict:
         if name == "items":
             return Builtin("dict.items", lambda I2, a, k: SSeq(SInt(self.n), lambda i: (self.wrapk(self.key_at(i)), self.wrapv(self.val_at(i))), "items(seqdict)"))
         if name == "keys":
-            return Builtin("dict.keys", lambda I2, a, k: self.pvc_iter(I2))
+            self.key_sort = self.key_at(z3.IntVal(0)).sort()
+            return Builtin("dict.keys", lambda I2, a, k: KeysView(self))
         if name == "values":
             return Builtin("dict.values", lambda I2, a, k: SSeq(SInt(self.n), lambda i: self.wrapv(self.val_at(i)), "values(seqdict)"))
         return NotImplemented
